@@ -11,7 +11,7 @@ import sys
 import numpy as np
 
 from .common import *  # noqa
-from .common import z3, V, shims, Harness, run_check, SymReal, SymBool, AND, OR, NOT, EQ, IMPLIES, COMMON_ASSUMPTIONS, Unsupported
+from .common import z3, V, shims, Harness, run_check, SymReal, SymBool, AND, OR, NOT, EQ, IMPLIES, COMMON_ASSUMPTIONS, Unsupported, EQ_RATIONAL
 from symx import special as S
 
 import rpylib.model.levycopulamodel as LCM
@@ -128,6 +128,118 @@ def h_volume(ctx, name, d, kinds):
               replay=(replay_generic, lambda m: dict(copula=name, kind="volume", a=[_mv(m, x) for x in a], b=[_mv(m, x) for x in b])))
 
 
+# ---- Clayton: stated mixed derivative, conditional distribution and its inverse (theta = 1: the copula is a rational function)
+
+
+def _numeric_mixed(f, u, h=1e-3):
+    d, tot = len(u), 0.0
+    for sg in itertools.product([1, -1], repeat=d):
+        tot += np.prod(sg) * f(np.array(u, dtype=float) + h * np.array(sg))
+    return tot / (2 * h) ** d
+
+
+def _clayton_after_reassignment(theta, eta, reassigned):
+    """a Clayton copula with parameter theta: built with it, or built with another value and re-assigned (parameter sweeps re-use one object)"""
+    if not reassigned:
+        return LC.ClaytonCopula(theta=theta, eta=eta)
+    cop = LC.ClaytonCopula(theta=3.0, eta=eta)
+    cop.theta = theta
+    return cop
+
+
+def replay_clayton_calculus(sc):
+    """real Clayton copula on floats (several theta, both construction histories): stated mixed derivative vs central finite differences of
+    the copula; conditional distribution in [0, 1], non-decreasing in x, inverted by the stated inverse"""
+    out = []
+    for theta in (1.0, 0.7, 2.5):
+        for reassigned in (False, True):
+            cop = _clayton_after_reassignment(theta, 0.3, reassigned)
+            tag = f"theta={theta}{' (assigned after construction with 3.0)' if reassigned else ''}"
+            for u in ([1.3, 0.7], [-1.3, 0.7], [-1.3, -0.7], [1.3, 0.7, 2.1], [-1.3, 0.7, 2.1], [-1.3, -0.7, -2.1]):
+                got, want = float(cop.x_first_derivative(np.array(u))), float(_numeric_mixed(cop, u))
+                if abs(abs(got) - abs(want)) > 1e-4 * max(abs(want), 1e-6):
+                    out.append(f"{tag}: x_first_derivative({u}) = {got!r}, mixed partial of the copula by central differences = {want!r}")
+            for eps in (0.8, -0.8):
+                xs = [-300.0, -5.0, -0.4, 0.3, 2.0, 150.0]
+                vals = [float(cop.conditional_distribution(eps, np.array([x]))[0]) for x in xs]
+                if any(v < -1e-12 or v > 1 + 1e-12 for v in vals) or any(b < a - 1e-12 for a, b in zip(vals, vals[1:])):
+                    out.append(f"{tag}: conditional_distribution({eps}, x) at x = {xs} is {vals}: not a distribution function")
+                back = [float(np.ravel(cop.inverse_conditional_distribution(np.array([eps]), np.array([v])))[0]) for v in vals]
+                for x, b in zip(xs, back):
+                    if abs(b - x) > 1e-6 * max(1.0, abs(x)):
+                        out.append(f"{tag}: inverse_conditional_distribution({eps}, conditional_distribution({eps}, {x})) = {b!r}")
+    return bool(out), "; ".join(out[:3]) if out else "stated derivative, conditional distribution and inverse agree with the copula"
+
+
+_MIXED = {}
+
+
+def _mixed_partial_theta1(d, signs):
+    """d-fold mixed partial derivative of the Clayton copula with theta = 1 on the orthant `signs`, by sympy from the definition
+    F(u) = 2^(2-d) * w * (sum_i 1/|u_i|)^(-1), w = eta if prod(signs) > 0 else -(1 - eta); returned as a python function of (u, eta)"""
+    key = (d, tuple(signs))
+    if key not in _MIXED:
+        import sympy as sp
+
+        us = sp.symbols(f"u0:{d}")
+        eta = sp.Symbol("eta")
+        w = eta if np.prod(signs) > 0 else -(1 - eta)
+        F = sp.Rational(2) ** (2 - d) * w / sum(1 / (sg * x) for sg, x in zip(signs, us))
+        D = F
+        for x in us:
+            D = sp.diff(D, x)
+        D = sp.together(sp.simplify(D))
+        num, den = sp.fraction(D)
+        fn, fd = sp.lambdify((us, eta), sp.expand(num), modules=[{}]), sp.lambdify((us, eta), sp.expand(den), modules=[{}])
+        fF = sp.lambdify((us, eta), F, modules=[{}])
+        _MIXED[key] = (fn, fd, fF)
+    return _MIXED[key]
+
+
+def h_clayton_mixed(ctx, d, signs, reassigned=False, ray=False):
+    """theta = 1, every eta, every argument of the orthant: (a) the real copula equals its definition; (b) the stated mixed derivative
+    equals, up to the orientation sign of the orthant, the mixed partial derivative of that definition"""
+    eta = ctx.real("eta", 0, 1)
+    cop = _clayton_after_reassignment(1.0, eta, reassigned)
+    if ray:
+        # the arguments on the ray t * (1, 2, 3) of the orthant, t > 0: two symbols (t, eta) only, so that a wrong constant is refuted at once
+        t = ctx.real("t")
+        ctx.assume(t > 0)
+        u = [sg * (i + 1) * t for i, sg in enumerate(signs)]
+    else:
+        u = [ctx.real(f"u{i}") for i in range(d)]
+        for x, sg in zip(u, signs):
+            ctx.assume(x > 0 if sg > 0 else x < 0)
+    fn, fd, fF = _mixed_partial_theta1(d, signs)
+    rp = (replay_clayton_calculus, lambda m: {})
+    info = {"d": d, "signs": signs, "reassigned": reassigned, "ray": ray}
+    ctx.prove(f"C11.clayton.copula_value_is_its_definition.{d}d", EQ_RATIONAL(cop(arr(u)), fF(u, eta)), info=info, replay=rp)
+    stated = cop.x_first_derivative(arr(u))
+    num, den = fn(u, eta), fd(u, eta)
+    ctx.prove(f"C11.clayton.stated_mixed_derivative_is_the_mixed_partial_of_the_copula.{d}d",
+              AND(NOT(EQ(den, 0)), OR(EQ_RATIONAL(stated * den, num), EQ_RATIONAL(stated * den, -num))), info=info, replay=rp, timeout_ms=60000)
+
+
+def h_clayton_conditional(ctx, eps_sign, x_sign, reassigned=False):
+    """theta = 1, every eta in (0, 1): the conditional distribution lies in [0, 1] and the stated inverse inverts it"""
+    eta = ctx.real("eta", 0, 1, lo_strict=True, hi_strict=True)
+    cop = _clayton_after_reassignment(1.0, eta, reassigned)
+    eps, x = ctx.real("eps"), ctx.real("x")
+    ctx.assume(eps > 0 if eps_sign > 0 else eps < 0)
+    ctx.assume(x > 0 if x_sign > 0 else x < 0)
+    rp = (replay_clayton_calculus, lambda m: {})
+    info = {"eps_sign": eps_sign, "x_sign": x_sign, "reassigned": reassigned}
+    c = cop.conditional_distribution(eps, arr([x]))[0]
+    ctx.prove("C11.clayton.conditional_distribution_in_unit_interval", AND(c >= 0, c <= 1), info=info, replay=rp)
+    r = (eps / x) if (eps_sign * x_sign > 0) else -(eps / x)  # |eps / x|
+    lead = (1 - eta) if eps_sign > 0 else eta
+    jump = (eta - (1 if x_sign < 0 else 0)) if eps_sign > 0 else ((1 if x_sign > 0 else 0) - eta)
+    ctx.prove("C11.clayton.conditional_distribution_is_its_closed_form", EQ_RATIONAL(c * (1 + r) * (1 + r), lead * (1 + r) * (1 + r) + jump), info=info, replay=rp)
+    back = cop.inverse_conditional_distribution(arr([eps]), arr([c]))
+    back = np.ravel(back)[0]
+    ctx.prove("C11.clayton.stated_inverse_inverts_the_conditional_distribution", EQ(back, x), info=info, replay=rp, timeout_ms=60000)
+
+
 def h_twin(ctx):
     """sensitivity twin: a 'Clayton' whose orthant weights are eta / -eta (instead of -(1-eta)) has wrong margins"""
     theta = ctx.real("theta")
@@ -172,6 +284,16 @@ def harnesses(tier):
                 if all(k in ("fi", "ni") for k in kinds):
                     continue  # F(inf,...,inf) = inf: the volume is only defined for rectangles with finite corner values
                 hs.append(Harness(f"volume.{name}.{d}.{'.'.join(kinds)}", h_volume, {"name": name, "d": d, "kinds": kinds}, max_paths=20000, batch=20))
+    for d in (2, 3):
+        for signs in ([(1,) * d, (-1,) + (1,) * (d - 1)] if q else list(itertools.product((1, -1), repeat=d))):
+            hs.append(Harness(f"clayton.mixed.{d}.{''.join('p' if x > 0 else 'n' for x in signs)}", h_clayton_mixed, {"d": d, "signs": tuple(signs)}, max_paths=400, timeout_ms=60000))
+    for d in (2, 3):
+        for signs in [(1,) * d, (-1,) + (1,) * (d - 1)]:
+            hs.append(Harness(f"clayton.mixed.ray.{d}.{''.join('p' if x > 0 else 'n' for x in signs)}", h_clayton_mixed, {"d": d, "signs": tuple(signs), "ray": True}, max_paths=400, timeout_ms=60000))
+    hs.append(Harness("clayton.mixed.2.pp.reassigned", h_clayton_mixed, {"d": 2, "signs": (1, 1), "reassigned": True}, max_paths=400, timeout_ms=60000))
+    for es, xs in itertools.product((1, -1), repeat=2):
+        hs.append(Harness(f"clayton.conditional.{'p' if es > 0 else 'n'}{'p' if xs > 0 else 'n'}", h_clayton_conditional, {"eps_sign": es, "x_sign": xs}, max_paths=400, timeout_ms=60000))
+    hs.append(Harness("clayton.conditional.pn.reassigned", h_clayton_conditional, {"eps_sign": 1, "x_sign": -1, "reassigned": True}, max_paths=400, timeout_ms=60000))
     hs.append(Harness("twin", h_twin, twin="must_fail"))
     return hs
 
